@@ -289,4 +289,57 @@ Proof.
   intros y Hy. apply Hall. apply sort_tokens_in. exact Hy.
 Qed.
 
+(* duplicates allowed: every other token is a copy of x, apart from x, or strictly shorter than x *)
+Lemma inner_keeps_dominant (x c : tok) : tcontains c x = false -> (overlap c x = true -> tok_len c < tok_len x) ->
+  forall rest mid, In x (mid ++ rest) -> In x (snd (fo_inner c mid rest)).
+Proof.
+  intros Hc Ho. induction rest as [|a rest IH]; intros mid Hin; simpl.
+  - rewrite app_nil_r in Hin. exact Hin.
+  - destruct (is_after a c); [exact Hin|].
+    assert (Hskip : In x (mid ++ rest) \/ x = a).
+    { apply in_app_or in Hin as [H|[->|H]]; [left; apply in_or_app; left; exact H | right; reflexivity | left; apply in_or_app; right; exact H]. }
+    destruct (tcontains c a) eqn:Ec.
+    + destruct Hskip as [H| ->]; [apply IH; exact H | congruence].
+    + destruct (overlap c a) eqn:Eo.
+      * destruct (tok_len a <=? tok_len c) eqn:El; [|exact Hin].
+        destruct Hskip as [H| ->]; [apply IH; exact H|]. specialize (Ho Eo). lia.
+      * apply IH. rewrite <- app_assoc. exact Hin.
+Qed.
+
+Lemma outer_keeps_dominant (x : tok) : wf_tok x -> forall fuel toks, (length toks <= fuel)%nat -> In x toks ->
+  (forall y, In y toks -> y = x \/ (wf_tok y /\ (apart x y \/ tok_len y < tok_len x))) -> In x (fo_outer fuel toks).
+Proof.
+  intros Hx. induction fuel as [|f IH]; intros toks Hl Hin Hall.
+  - destruct toks; [destruct Hin | simpl in Hl; lia].
+  - cbn [fo_outer]. destruct toks as [|c [|n rest]]; [destruct Hin | exact Hin |].
+    pose proof (inner_length c (n :: rest) []) as Hlen.
+    assert (Hsub : forall y, In y (snd (fo_inner c [] (n :: rest))) -> In y (n :: rest)).
+    { intros y Hy. destruct (inner_mid_prefix c (n :: rest) []) as [q [E I]]. rewrite E in Hy. apply I. exact Hy. }
+    destruct (Hall c (or_introl eq_refl)) as [->|[Hwc Hdc]].
+    + assert (Hk : fst (fo_inner x [] (n :: rest)) = true).
+      { apply inner_current_kept. intros m Hm Hov.
+        destruct (Hall m (or_intror Hm)) as [->|[Hwm [Ham|Hsm]]].
+        - left. unfold tcontains. lia.
+        - exfalso. unfold overlap, apart, wf_tok in *. lia.
+        - right. lia. }
+      destruct (fo_inner x [] (n :: rest)) as [keep rem]. simpl in Hk. subst keep. left; reflexivity.
+    + assert (Hxr : In x (n :: rest)).
+      { destruct Hin as [->|H]; [|exact H]. exfalso. destruct Hdc as [A|A]; [unfold apart, wf_tok in *; lia | lia]. }
+      assert (Hx' : In x (snd (fo_inner c [] (n :: rest)))).
+      { apply inner_keeps_dominant; [| |exact Hxr].
+        - destruct Hdc as [A|A]; unfold tcontains, apart, wf_tok, tok_len in *; lia.
+        - intro Ho. destruct Hdc as [A|A]; [exfalso; unfold overlap, apart, wf_tok in *; lia | exact A]. }
+      destruct (fo_inner c [] (n :: rest)) as [keep rem]. cbn [snd] in *.
+      assert (Hrec : In x (fo_outer f rem)).
+      { apply IH; [simpl in Hl, Hlen; lia | exact Hx' |]. intros y Hy. apply Hall. right. apply Hsub. exact Hy. }
+      destruct keep; [right; exact Hrec | exact Hrec].
+Qed.
+
+Theorem fo_keeps_dominant (x : tok) l : wf_tok x -> In x l ->
+  (forall y, In y l -> y = x \/ (wf_tok y /\ (apart x y \/ tok_len y < tok_len x))) -> In x (filter_overlapping l).
+Proof.
+  intros Hx Hin Hall. unfold filter_overlapping. apply outer_keeps_dominant; [exact Hx | lia | apply sort_tokens_in; exact Hin |].
+  intros y Hy. apply Hall. apply sort_tokens_in. exact Hy.
+Qed.
+
 End Rules.
